@@ -1146,4 +1146,23 @@ theorem hol_enabled_of_seq (n : Nat) (h : HOL) (q : SeqHOL) (hr : HolRel n h q) 
   · simp [HOL.canStep, HOL.step, hph.2.1, hph.2.2.1]
   · exact idx c (.readReq c) (rpc_lt_of_get hph.2.2.2) (by simp) (by simp [HOL.step, hph.2.1, hph.2.2.2])
 
+/-! ### the response channel of a sync round -/
+
+/-- after the abort the demand never grows and the capacity never changes -/
+theorem Round.aborted_step (c : Nat) (s s' : Round) (a : RoundStep)
+    (h : s.reading = false ∧ s.cap = c ∧ s.demand ≤ c) (hs : s.step a = some s') :
+    s'.reading = false ∧ s'.cap = c ∧ s'.demand ≤ c := by
+  obtain ⟨hr, hc, hd⟩ := h
+  simp only [Round.demand] at hd
+  cases a
+  case consume rq => simp [Round.step, hr] at hs
+  all_goals simp only [Round.step, hr] at hs
+  all_goals (repeat' split at hs)
+  all_goals first
+    | contradiction
+    | ((try simp only [Option.some.injEq] at hs); subst hs
+       refine ⟨by simp_all, by simp_all, ?_⟩
+       simp only [Round.demand]; simp_all <;> omega)
+    | (simp at hs)
+
 end Verif.Conc
